@@ -164,11 +164,32 @@ class Ctx:
         if name not in self.minima or v < self.minima[name]:
             self.minima[name] = v
 
+    def flush(self, force=False):
+        """Write the partial result of this shard (so that a shard killed by its watchdog -- e.g. because a broken
+        tree makes a later case hang -- still reports the violations it had already observed)."""
+        out = getattr(self, "_out", None)
+        if not out:
+            return
+        now = time.time()
+        if not force and now - getattr(self, "_last_flush", 0.0) < 20.0:
+            return
+        self._last_flush = now
+        try:
+            res = self.result()
+            res["partial"] = True
+            tmp = out + ".tmp"
+            with open(tmp, "w") as f:
+                json.dump(res, f)
+            os.replace(tmp, out)
+        except Exception:
+            pass
+
     def case(self, case, nontrivial=True):
         """Register one generated case (evaluation); counts distinct non-trivial digests."""
         self.evaluations += 1
         if nontrivial:
             self.nontrivial.add(digest(case))
+        self.flush()
 
     def sample(self, case, **obs):
         if len(self.samples) < MAX_SAMPLES:
@@ -195,6 +216,8 @@ class Ctx:
         self.sigcounts[sig] = self.sigcounts.get(sig, 0) + 1
         # keep example records per signature (so that a flood of one known finding can never crowd
         # out the record of a different failure); every failure is classified through sigcounts
+        if self.sigcounts[sig] == 1:
+            self._pending_flush = True
         if self.sigcounts[sig] <= MAX_RECORDS_PER_SIGNATURE and len(self.violations) < MAX_VIOLATION_RECORDS:
             self.violations.append(
                 {
@@ -207,6 +230,9 @@ class Ctx:
                     "shard": self.shard,
                 }
             )
+        if getattr(self, "_pending_flush", False):
+            self._pending_flush = False
+            self.flush(force=True)
         return False
 
     def result(self):
@@ -243,6 +269,7 @@ def worker_main(argv):
     faulthandler.dump_traceback_later(max(30, int(spec.get("timeout", 600)) - 5), exit=False)
     bootstrap.setup_paths()
     ctx = Ctx(prop, tier, int(seed), int(shard), int(nshards), spec)
+    ctx._out = out
     res = None
     try:
         mod = load_check(prop)
@@ -335,6 +362,12 @@ def run_shards(prop, tier, seed, specs, replay=None):
                             res = json.load(f)
                     except Exception:
                         res = None
+                died = (rc == "timeout") or (isinstance(rc, int) and rc != 0)
+                if res is not None and (res.get("partial") or died):
+                    res.setdefault("inconclusive", []).append(
+                        f"shard {i} ({spec.get('mode','jit')}) "
+                        + ("hit its wall-clock watchdog" if rc == "timeout" else f"ended with rc={rc}")
+                        + " after reporting a partial result")
                 if res is None:
                     tail = ""
                     try:
@@ -483,7 +516,11 @@ def write_evidence(prop, tier, seed, mod, merged, kf, viol, wall, verdict, reaso
         "violations": len(viol) if verdict != "held" else 0,
     }
     path = os.path.join(EVIDENCE_DIR, f"{prop}.json")
-    # self-validate against the schema when available
+    if not cov["samples"]:
+        # nothing completed far enough to be sampled (e.g. every case failed early): show the failing cases instead
+        cov["samples"] = [{"note": "no case completed", "failing_case": v.get("case")} for v in viol[:3]] or [{"note": "no case completed"}]
+    # self-validate against the schema when available; an evidence file that does not validate is reported, never fatal
+    problem = None
     try:
         import jsonschema
 
@@ -494,9 +531,11 @@ def write_evidence(prop, tier, seed, mod, merged, kf, viol, wall, verdict, reaso
         pass
     except FileNotFoundError:
         pass
+    except Exception as e:
+        problem = f"evidence does not validate against EVIDENCE.schema.json: {str(e).splitlines()[0][:200]}"
     with open(path, "w") as f:
         json.dump(ev, f, indent=1, sort_keys=False)
-    return path
+    return problem
 
 
 def write_replay(prop, idx, v, tier, seed):
@@ -543,7 +582,11 @@ def drive(prop, tier, seed, replay=None):
         verdict = "held"
     wall = time.time() - t0
     if not replay:
-        write_evidence(prop, tier, seed, mod, merged, kf, viol, wall, verdict, reasons)
+        problem = write_evidence(prop, tier, seed, mod, merged, kf, viol, wall, verdict, reasons)
+        if problem:
+            reasons.append(problem)
+            if verdict == "held":
+                verdict = "inconclusive"
     # ---- report ----
     print(f"[{prop}] tier={tier} seed={seed} shards={len(specs)} evaluations={merged['evaluations']} "
           f"distinct_nontrivial={merged['nontrivial']} wall={wall:.1f}s")
